@@ -9,7 +9,7 @@ usage: run_seeds.py [id ...]
 import json, os, pathlib, shutil, subprocess, sys, tempfile, concurrent.futures as cf
 VERIF = pathlib.Path(__file__).resolve().parent.parent
 # behaviour-preserving refactorings (seeded/<id>-rf-<v>/) are twins, not seeds: tools/run_refactors.py and the selftest run them
-ids = sys.argv[1:] or sorted(p.name for p in (VERIF / "seeded").iterdir() if (p / "patch.diff").exists() and "-rf-" not in p.name and "-rg-" not in p.name)
+ids = sys.argv[1:] or sorted(p.name for p in (VERIF / "seeded").iterdir() if (p / "patch.diff").exists() and not __import__("re").search(r"-r[a-z]-", p.name))
 manifest = json.loads((VERIF / "MANIFEST.json").read_text()) if (VERIF / "MANIFEST.json").exists() else {"checks": []}
 claimed = {c["property_id"] for c in manifest["checks"]}
 def one(sid):
